@@ -641,6 +641,10 @@ impl CommandHub {
             return;
         };
 
+        // a task created earlier in this very tick is still queued: a fast worker
+        // may already be answering it, and its answer must not be dropped
+        self.tasks.extend(self.server.queued_tasks.drain());
+
         let task = match self.tasks.get_mut(&task_id) {
             Some(task) => task,
             None => {
